@@ -18,10 +18,21 @@ pub enum Status {
     UsesUnimported,
     /// healthy, but the file holds another library definition before the wanted one
     SecondInFile,
+    /// bytes that are not UTF-8 on a later line of the file: after the complete definition, or inside it
+    NotUtf8Late,
 }
 
-pub const FILE_STATUSES: [Status; 8] =
-    [Status::Healthy, Status::Missing, Status::BodyFault, Status::WrongName, Status::Unbalanced, Status::NotUtf8, Status::UsesUnimported, Status::SecondInFile];
+pub const FILE_STATUSES: [Status; 9] = [
+    Status::Healthy,
+    Status::Missing,
+    Status::BodyFault,
+    Status::WrongName,
+    Status::Unbalanced,
+    Status::NotUtf8,
+    Status::UsesUnimported,
+    Status::SecondInFile,
+    Status::NotUtf8Late,
+];
 pub const SOURCE_STATUSES: [Status; 4] = [Status::Healthy, Status::Missing, Status::BodyFault, Status::UsesUnimported];
 
 #[derive(Clone, Debug)]
@@ -86,6 +97,21 @@ fn file_bytes(g: &Graph, i: usize) -> Option<Vec<u8>> {
             let t = lib_text(g, i, None);
             Some(t.trim_end().trim_end_matches(')').as_bytes().to_vec())
         }
+        Status::NotUtf8Late => {
+            // the first line is clean text; the bad bytes come on a later line (inside the form for even i, after it for odd i)
+            let t = lib_text(g, i, None);
+            let mut b = Vec::new();
+            if i % 2 == 0 {
+                let cut = t.find("(begin").unwrap_or(t.len() / 2);
+                b.extend_from_slice(t[..cut].as_bytes());
+                b.extend_from_slice(b"\n ; caf\xe9 \xff\n");
+                b.extend_from_slice(t[cut..].as_bytes());
+            } else {
+                b.extend_from_slice(t.as_bytes());
+                b.extend_from_slice(b"; written in latin-1: caf\xe9\n");
+            }
+            Some(b)
+        }
         Status::NotUtf8 => {
             let mut b = lib_text(g, i, None).into_bytes();
             b.insert(20, 0xff);
@@ -123,7 +149,7 @@ pub fn acceptable(g: &Graph, root: usize) -> Vec<&'static str> {
                 Status::Missing | Status::WrongName => "Logic::LibraryNotFound",
                 Status::BodyFault | Status::UsesUnimported => "Logic::UnboundedSymbol",
                 Status::Unbalanced => "Syntax",
-                Status::NotUtf8 => "IO",
+                Status::NotUtf8 | Status::NotUtf8Late => "IO",
             };
             if !out.contains(&c) {
                 out.push(c);
@@ -447,7 +473,7 @@ pub fn run(ctx: &Ctx) {
     ctx.set_rule(
         "every directed graph (self-loops allowed) on 1-2 libraries (thorough: 3, strided) x every assignment of node \
          status (files: healthy / missing / body faults at load / file defines another name / unbalanced / not UTF-8 / \
-         body uses the export of a library it does not import / a healthy definition that is the second one in its file; registered sources: healthy / missing / body fault / uses \
+         body uses the export of a library it does not import / a healthy definition that is the second one in its file / non-UTF-8 bytes on a later line; registered sources: healthy / missing / body fault / uses \
          unimported) x every history of 1-3 import attempts on one interpreter. \
          Edges (and the program's own import) are written as plain, prefix, only or rename import sets. \
          Oracle computed from the graph alone: success iff everything reachable is healthy and no cycle is reachable, a \
